@@ -122,6 +122,12 @@ func Families() []Named {
 		// names with letters beyond ASCII (yaccgo accepts Unicode letters in identifiers)
 		{"unicode-names", Parse("S", []string{"TÄ", "TB"}, "S: größe TÄ | TÄ ; größe: TÄ TB | größe TB")},
 		{"nonassoc-cmp", Parse("E", []string{"TA"}, "E: E '<' E | E '+' E | TA").WithPrec("nonassoc '<'", "left '+'")},
+		// %prec naming a token that is declared but has no precedence level (legal yacc: the rule then has none)
+		{"prec-of-plain-token", Parse("E", []string{"TA", "TU"}, "E: E '+' E | '-' E %prec TU | TA").WithPrec("left '+'")},
+		{"prec-of-plain-literal", Parse("E", []string{"TA"}, "E: E '+' E | '-' E %prec '!' | '!' TA | TA").WithPrec("left '+'")},
+		// a reduce/reduce conflict between two rules that carry the same precedence level
+		{"rr-same-level-left", Parse("S", []string{"TA", "TC"}, "S: V | C ; V: TA %prec TC ; C: TA %prec TC").WithPrec("left TC")},
+		{"rr-same-level-right", Parse("S", []string{"TA", "TC"}, "S: V TA | C TA | V ; V: TA %prec TC ; C: TA %prec TC").WithPrec("right TC")},
 	}
 }
 
